@@ -154,6 +154,25 @@ def generate(lean_dir: str):
                 raise P.Untranslatable("_save_bmp is not called with (image, width, height, …)")
         out.append(f"def bmpBpl{i} (width bits : Int) : Int :=\n  " + _int_expr(c.args[3], ["width", "bits"]) + "\n")
         out.append(f"def bmpDepth{i} (width bits : Int) : Int :=\n  " + _int_expr(c.args[4], ["width", "bits"]) + "\n\n")
+    # _plausible_dimensions: the bounds below which export_image trusts Width, Height and BitsPerComponent
+    plaus = _method(mod, "ImageWriter", "_plausible_dimensions")
+    pows = [n.right.value for n in ast.walk(plaus) if isinstance(n, ast.BinOp) and isinstance(n.op, ast.Pow) and
+            isinstance(n.left, ast.Constant) and n.left.value == 2 and isinstance(n.right, ast.Constant)]
+    cmps = [ast.unparse(n) for n in ast.walk(plaus) if isinstance(n, ast.Compare)]
+    want = ["0 < width < 2 ** 31", "0 < height < 2 ** 31", "0 < bits <= 32", "width * height * bits < 2 ** 34"]
+    if sorted(pows) != [31, 31, 34] or any(w not in cmps for w in want):
+        raise P.Untranslatable(f"_plausible_dimensions: unexpected bounds {cmps!r}")
+    exp_src = ast.unparse(exp)
+    if "self._plausible_dimensions(width, height, image.bits)" not in exp_src or \
+            exp_src.index("_plausible_dimensions") > exp_src.index("get_filters"):
+        raise P.Untranslatable("export_image: the plausibility test does not precede the format choice")
+    imgs = _ext_literals(exp)
+    if imgs != [".img"]:
+        raise P.Untranslatable(f"export_image: the implausible-dimensions dump uses {imgs!r}, expected ['.img']")
+    out.append("/-- `_plausible_dimensions`: 0 < width, height < dimLimit, 0 < bits ≤ bitsMax, width·height·bits < totalLimit;\n"
+               "    anything else is dumped undecoded as `<name>.img`. -/\n")
+    out.append("def plausDimLimit : Nat := 2 ^ 31\ndef plausBitsMax : Nat := 32\ndef plausTotalLimit : Nat := 2 ^ 34\n")
+    out.append(f"def extUndecoded : List UInt8 := {P.lean_bytes(b'.img')}\n\n")
     for meth, lean in (("_save_jpeg", "extJpeg"), ("_save_bmp", "extBmp")):
         exts = _ext_literals(_method(mod, "ImageWriter", meth))
         if len(exts) != 1:
@@ -175,4 +194,4 @@ def generate(lean_dir: str):
     P.write_if_changed(path, "".join(out))
     # the naming model shared with C15 uses Gen/PathGen.lean: keep it current on C18 runs too
     from . import gen_c15
-    return [path] + gen_c15.generate(lean_dir)
+    return [path] + gen_c15.generate_path(lean_dir)
